@@ -86,6 +86,8 @@ func newC07World(prefix string, queues []int) *c07World {
 	tqs.WithContext(ctx)
 	op.TaskQueues = tqs
 	w := &c07World{prefix: prefix, op: op, tqs: tqs, names: queues, cancel: cancel}
+	// queue 1 plays the main queue of this set (a name of its own per case: yield points are keyed by queue name)
+	tqs.WithMainName(w.qname(1))
 	for _, n := range queues {
 		tqs.NewNamedQueue(w.qname(n), func(task.Task) queue.TaskResult { return queue.TaskResult{Status: queue.Success} })
 	}
@@ -95,7 +97,12 @@ func newC07World(prefix string, queues []int) *c07World {
 func (w *c07World) mkTask(t c07Task) task.Task {
 	bt := task.NewTask(c07TaskTypes[t.Type])
 	bt.Id = strconv.Itoa(t.ID)
-	bt.WithQueueName(w.qname(t.Queue))
+	if t.Queue == 0 {
+		// a task that is in no queue and names none: what the admission / conversion handlers build
+		bt.WithQueueName("")
+	} else {
+		bt.WithQueueName(w.qname(t.Queue))
+	}
 	if t.Meta {
 		bt.WithMetadata(w.mkMeta(t))
 	}
@@ -157,6 +164,7 @@ type c07Call struct {
 	Twin   bool
 	Passed int // -1 = nil pointer
 	T      c07Task
+	ByName bool              // the queue pointer is what production passes: GetByName(t.GetQueueName())
 	Stop   string            // "none" | "af" | "ids:…"
 	Apps   map[int][]c07Task // appended between Iterate and Filter, per queue
 	AppOrd []int
@@ -206,7 +214,13 @@ func (w *c07World) combine(call c07Call, real task.Task) (string, string) {
 	if call.Passed >= 0 {
 		passed = w.tqs.GetByName(w.qname(call.Passed))
 	}
+	if call.ByName {
+		passed = w.tqs.GetByName(real.GetQueueName())
+	}
 	key := real.GetQueueName()
+	if key == "" {
+		key = w.prefix + "-no-queue" // never reached by a point: a task without a queue name parks nowhere
+	}
 	arrive := sched.Subscribe(key)
 	defer sched.Unsubscribe(key)
 	done := make(chan string, 1)
@@ -345,6 +359,10 @@ func c07Run(c *Case, l c07Layout, calls []c07Call, updateMeta bool) {
 		if inDomain {
 			c.Oracle("combine " + call.args() + " " + out + " queues=" + queues)
 			c.Note("oracle:in-domain")
+		} else if call.ByName && call.T.Queue == 0 {
+			// a run that is not a queue task (webhook): nothing is merged, nothing leaves a queue
+			c.Oracle("untouched " + call.args() + " " + out + " queues=" + queues)
+			c.Note("oracle:not-a-queue-task")
 		} else {
 			c.Note("oracle:outside-domain(correspondence only)")
 		}
@@ -473,16 +491,29 @@ func c07Random(c *Case, rng *Rng) {
 	case k < 88:
 		tIdx = rng.Intn(n)
 		kind = "middle"
-	case k < 92:
+	case k < 91:
 		kind = "nil-queue"
-	case k < 97:
+	case k < 94:
 		kind = "foreign"
+	case k < 97:
+		kind = "webhook-task"
 	default:
 		kind = "absent-queue"
+	}
+	var webhookTask c07Task
+	if kind == "webhook-task" {
+		// same hook and task type as the head of the main queue, but in no queue and naming none
+		webhookTask = g.task(0, headHook, headType, headAF)
+		webhookTask.Meta, webhookTask.Hook, webhookTask.Type = true, headHook, headType
+		l.Tasks = append(l.Tasks, webhookTask)
 	}
 	for ci := 0; ci < ncalls; ci++ {
 		call := c07Call{Twin: rng.Bool(), Passed: 1, T: l.Tasks[tIdx], Stop: "none", Apps: map[int][]c07Task{}}
 		switch kind {
+		case "webhook-task":
+			call.Passed = -1
+			call.ByName = true
+			call.T = webhookTask
 		case "nil-queue":
 			call.Passed = -1
 		case "foreign":
@@ -509,7 +540,7 @@ func c07Random(c *Case, rng *Rng) {
 			}
 			call.Stop = "ids:" + joinInts(ids)
 		}
-		if rng.Chance(55) {
+		if kind != "webhook-task" && rng.Chance(55) {
 			for _, qn := range []int{1, 2} {
 				if qn == 2 && !rng.Chance(30) {
 					continue
@@ -589,7 +620,7 @@ func c07Exhaustive(c *Case, k int) {
 }
 
 func runC07(r *Run) {
-	r.Rule = "queue layouts of 1..10 tasks in the task's queue (+0..2 in a second queue) over 3 hooks x 3 task types x metadata-less tasks x contexts (0..3 per task, unique binding names, groups {\"\",g1,g2} interleaved) x monitor ids x allowFailure; the real combineBindingContextForHook (via verif_export_c07.go) or its exported twin is called for the head task (78%), a task in the middle, with a nil queue, with a task naming another / an absent queue; stop predicate nil / allowFailure-differs / id set; in 55% of the calls 1..3 tasks are appended to the queues by a second goroutine while the combiner is parked between Iterate and Filter; 35% of the cases run a second call after the task's metadata was updated with the first result. Oracle lines (head-of-own-queue calls): returned contexts = Spec.compact of the concatenation in queue order, monitor ids, every queue of the set afterwards. Non-trivial: >= 2 tasks in the queue; distinct = distinct op-line sequences. Plus whole-operator startups (real taskHandleHookRun with generated hooks: grouped/ungrouped Synchronization tasks; oracle: an ungrouped Synchronization runs with its own contexts and the queue is left alone). Thorough adds every layout of a head (3 groups) with <= 4 followers over 6 follower kinds, with and without a concurrent append."
+	r.Rule = "queue layouts of 1..10 tasks in the task's queue (+0..2 in a second queue) over 3 hooks x 3 task types x metadata-less tasks x contexts (0..3 per task, unique binding names, groups {\"\",g1,g2} interleaved) x monitor ids x allowFailure; the real combineBindingContextForHook (via verif_export_c07.go) or its exported twin is called for the head task (78%), a task in the middle, with a nil queue, with a task naming another / an absent queue, for a task that is in no queue and names none (what the admission and conversion handlers run; the queue pointer is then GetByName of its empty name, as in taskHandleHookRun; oracle untouched: nothing merged, no queue changed); stop predicate nil / allowFailure-differs / id set; in 55% of the calls 1..3 tasks are appended to the queues by a second goroutine while the combiner is parked between Iterate and Filter; 35% of the cases run a second call after the task's metadata was updated with the first result. Oracle lines (head-of-own-queue calls): returned contexts = Spec.compact of the concatenation in queue order, monitor ids, every queue of the set afterwards. Non-trivial: >= 2 tasks in the queue; distinct = distinct op-line sequences. Plus whole-operator startups (real taskHandleHookRun with generated hooks: grouped/ungrouped Synchronization tasks; oracle: an ungrouped Synchronization runs with its own contexts and the queue is left alone). Thorough adds every layout of a head (3 groups) with <= 4 followers over 6 follower kinds, with and without a concurrent append."
 	// corpus
 	r.One(0, func(c *Case, _ *Rng) {
 		c.Desc = "corpus: interleaved groups, monitor ids, a foreign hook in the middle, concurrent append"
